@@ -112,6 +112,24 @@ theorem result_from_callbacks (o : Oracle) (m : Msg) :
     | term => simp
     | err c => right; exact ⟨c, i, by rw [hi, hr], by simp⟩
 
+/-- **Every oracle: Range returns the last error a callback returned** (`amendError`: a later
+non-nil error replaces an earlier one), and nil when no callback that was actually invoked
+returned an error — Break and Terminate never leak out. -/
+theorem result_is_last_error (o : Oracle) (m : Msg) :
+    (range o m).2 = (match lastErr (answers o (range o m).1.length) with
+      | some c => .err c
+      | none => .ok) := by
+  rw [range_fst, range_snd, ← walkTree_lastErr]
+  cases (walkTree o (treeOf m)).2 <;> simp [Res.errCode]
+
+/-- **Every oracle: Terminate or an error stops the traversal.**  Whatever the other callbacks
+answer, after a callback that answered Terminate or an error no further push is made: all later
+events are pops (the pending ones, since the whole sequence is balanced). -/
+theorem hard_answer_stops (o : Oracle) (m : Msg) (k : Nat) (hk : k < (range o m).1.length)
+    (hh : (o k).Hard) : ((range o m).1.drop (k + 1)).all Event.isPop = true := by
+  rw [range_fst] at hk ⊢
+  exact (walkTree_hard o k (treeOf m) hk hh).1
+
 /-- A traversal whose callbacks return nil as long as they are asked is the undisturbed one. -/
 theorem undisturbed (o : Oracle) (m : Msg) (h : ∀ i, i < (full m).length → o i = .ok) :
     range o m = range Oracle.cont m := by
